@@ -1229,7 +1229,15 @@ def m_enumerate(ex, it, start=0):
 def m_zip(ex, *its, **kw):
     lists = [ex.concrete_iter(i) for i in its]
     if any(l is None for l in lists):
-        raise Unsupported('zip over symbolic iterable')
+        if kw:
+            raise Unsupported('zip(strict=) over symbolic iterable')
+        seqs = [ex.as_symseq(i) for i in its]
+        if any(q is None for q in seqs):
+            raise Unsupported('zip over a mix of concrete and symbolic iterables')
+        from .engine import SymZip
+
+        # only usable as the iterable of a `for` statement with a loop invariant (engine.st_For)
+        return SymZip(seqs)
     return ConcIter([tuple(t) for t in zip(*lists)])
 
 
